@@ -436,7 +436,7 @@ func C11(ctx *core.Ctx) {
 			inSCC[f] = true
 		}
 		var flat []flatEdge
-		defer func() {}()
+		var pendHere []pending
 		for _, fn := range comp {
 			allGuarded := true
 			anyGuard := false
@@ -473,7 +473,7 @@ func C11(ctx *core.Ctx) {
 					ctx.Discharge("C11.R2", construct, cc.IPos(c.Instr), "structural: an argument descends into a component of the caller's parameter")
 				case best.descents > 0 && len(best.index) > 0:
 					allGuarded = false
-					pend = append(pend, pending{fn, c, best.index, construct})
+					pendHere = append(pendHere, pending{fn, c, best.index, construct})
 				default:
 					allGuarded = false
 					for _, t := range res(c) {
@@ -511,6 +511,34 @@ func C11(ctx *core.Ctx) {
 				stack = append(stack, adj[x]...)
 			}
 			return false
+		}
+		// a step through a name index needs the index to be acyclic only if some
+		// cycle through it has no visited-guarded step (the guard may sit in
+		// another function of the cycle, e.g. at the head of the recursion)
+		for _, pd := range pendHere {
+			for _, t := range res(pd.call) {
+				if inSCC[t] {
+					adj[pd.fn] = append(adj[pd.fn], t)
+				}
+			}
+		}
+		for _, pd := range pendHere {
+			cyc := false
+			for _, t := range res(pd.call) {
+				if inSCC[t] && onCycle(flatEdge{from: pd.fn, to: t}) {
+					cyc = true
+				}
+			}
+			if cyc {
+				pend = append(pend, pd)
+			} else {
+				ctx.Discharge("C11.R2", pd.name, cc.IPos(pd.call.Instr), "step through the name index "+strings.Join(pd.index, ",")+"; every cycle through it contains a visited-guarded step")
+			}
+		}
+		// (flat steps are judged on the flat edges alone: a cycle that needs an index step is that step's subject)
+		adj = map[*ssa.Function][]*ssa.Function{}
+		for _, e := range flat {
+			adj[e.from] = append(adj[e.from], e.to)
 		}
 		for _, e := range flat {
 			if onCycle(e) {
@@ -690,11 +718,17 @@ func C11(ctx *core.Ctx) {
 		if ok {
 			if pf := cc.FnOpt("parser", "parseFrugal"); pf != nil && validate != nil {
 				var vcall ssa.Instruction
-				for _, c := range ssax.Calls(pf) {
-					if c.Static == validate {
-						vcall = c.Instr.(ssa.Instruction)
-					}
+				// the validation call, or a call of a helper that validates on every successful path
+				isValidate := func(in ssa.Instruction) bool {
+					c, ok := ssax.AsCall(in)
+					return ok && c.Static == validate
 				}
+				w := liftedWeight(pf, isValidate, 2)
+				ssax.Instrs(pf, func(in ssa.Instruction) {
+					if lo, _ := w(in); lo >= 1 {
+						vcall = in
+					}
+				})
 				for ret, vs := range ReturnedValues(pf) {
 					if !nilErrorReturn(ret) {
 						continue
